@@ -1,10 +1,10 @@
 #!/bin/bash
 # scratch.sh <seed-or-patch> : copy /repo to /var/tmp/hlscratch.<name>/repo with the patch applied; prints the directory
 set -e
-p="$1"; [ -f "$p" ] || p="/verif/seeded/$1/patch.diff"
-n=$(basename "$(dirname "$p")")
+p="$(realpath "$1" 2>/dev/null)"; [ -f "$p" ] || p="/verif/seeded/$1/patch.diff"
+n=$(basename "$(dirname "$p")")_$(basename "$p" .diff)
 d=/var/tmp/hlscratch.$n
 rm -rf "$d"; mkdir -p "$d"
 rsync -a --exclude target --exclude .git /repo/ "$d/repo/"
-patch -p1 -s -d "$d/repo" -i "$p"
+(cd "$d/repo" && git apply --whitespace=nowarn "$p")
 echo "$d/repo"
